@@ -83,6 +83,7 @@ fn main() {
         "c11" => p_splitters::run(&args, &mut rep),
         "c12" => p_compress::run(&args, &mut rep),
         "c14" => p_trunc::run(&args, &mut rep),
+        "c14prep" => p_trunc::prep(&args, &mut rep),
         "c14child" => code = p_trunc::child(&args, &mut rep),
         "c15" => p_writefail::run(&args, &mut rep),
         "c15child" => std::process::exit(p_writefail::child(&args)),
